@@ -98,11 +98,44 @@ _add(PropertySpec(
                  "reconcile_thl, reconcile_exhaustive and generate_all are NOT discharged: bounded stand-in only"],
 ))
 _add(PropertySpec(
-    "C05", files=["compute_reconciliation"],
+    "C05", files=["compute_super"],
     targets=[f"{DP}:Entry.update", f"{DP}:Entry.combine", f"{DP}:Entry.__iter__", f"{DP}:Entry.infos"],
-    level="proof", standins=["reconciliation:thl-exh-vs-brute-force"],
+    level="proof", standins=["reconciliation:thl-exh-vs-brute-force", "labelled-solvers:all-any-vs-optimal-set"],
     technique="contract-based deductive verification of the tag clauses of Entry.update / combine / __iter__ (ALL keeps exactly the optimal tags, ANY exactly one); "
               "solver-level clauses (decode completeness, result sets): bounded stand-in against the brute-force optimal set",
     not_decided=["every optimal solution is returned / exactly one under ANY at the level of the solvers (decode completeness, re-ranking): bounded stand-in only",
-                 "ordered and unordered super-reconciliation solvers: see C02 / C03"],
+                 "ordered and unordered solvers: same, bounded stand-in against the complete optimal set (unordered: canonical labellings, as the property states)"],
+))
+
+_add(PropertySpec(
+    "C02", files=["compute_super"],
+    targets=[f"{SUB}:subseq_complete", f"{SUB}:mask_from_subseq", f"{SUB}:subseq_from_mask", f"{SUB}:subseq_segment_dist",
+             f"{MRC}:SuperReconciliationOutput._ordered_labeling_cost", f"{MRC}:SuperReconciliationOutput.cost"],
+    level="exploration", standins=["ordered-solvers:optimum-vs-brute-force"],
+    technique="bounded stand-in (both ordered solvers against an independent optimum over every species mapping, root order and labelling) plus "
+              "contract-based deductive verification of the callees the solver's correctness rests on (mask / segment-distance functions, ordered labelling cost); "
+              "the SPFS table contracts are not discharged",
+    not_decided=["Bellman contract of _compute_spfs_entry, _compute_spfs_table, _decode_spfs_table, _make_prec_graph, _spfs and the two wrappers: NOT discharged, bounded stand-in only",
+                 "root orders come from toposort_all (C19: bounded only)"],
+))
+_add(PropertySpec(
+    "C03", files=["compute_super"],
+    targets=[f"{MRC}:SuperReconciliationOutput._unordered_labeling_cost", f"{MRC}:SuperReconciliationOutput.cost",
+             f"{MRC}:ReconciliationOutput.node_event", f"{MRC}:ReconciliationOutput._cost_rec"],
+    level="exploration", standins=["unordered-solvers:optimum-vs-brute-force"],
+    technique="bounded stand-in (both unordered solvers against an independent optimum over every species mapping and EVERY admissible labelling, not only the canonical ones) plus "
+              "contract-based deductive verification of the evaluator (unordered labelling cost, event model); the USPFS table contracts are not discharged",
+    not_decided=["recurrence contract of _compute_uspfs_entry, _compute_gain_sets, _compute_lca_sets, _compute_uspfs_table, _decode_uspfs_table, _uspfs and the wrappers: NOT discharged, bounded stand-in only",
+                 "'the two canonical labellings per node lose nothing' is a theorem of the model: validated on the bounded scope only (oracle compares canonical vs all labellings)"],
+))
+_add(PropertySpec(
+    "C04", files=["compute_super"],
+    targets=[f"{MRC}:ReconciliationOutput.node_event", f"{MRC}:ReconciliationOutput._cost_rec", f"{MRC}:ReconciliationOutput.cost",
+             f"{SUB}:subseq_segment_dist", f"{SUB}:subseq_from_mask", f"{SUB}:mask_from_subseq"],
+    level="exploration", standins=["labelled-solvers:validity-of-returned-solutions", "reconciliation:thl-exh-vs-brute-force"],
+    technique="bounded stand-in (validity clauses re-checked on every solution returned by the solvers, all cost vectors incl. segmental-loss cost 0) plus "
+              "contract-based deductive verification of the functions that decide validity (node_event = documented event model incl. INVALID, segment distance = -1 iff not contained, "
+              "mask <-> subsequence); the decode contracts are not discharged",
+    not_decided=["representation invariants of the three tables and the decode contracts (_decode_thl_table, _decode_spfs_table, _decode_uspfs_table): NOT discharged, bounded stand-in only",
+                 "multifurcating inputs: see C08"],
 ))
